@@ -504,7 +504,14 @@ class Extractor:
         self._outlines = []
         self.emit_body(children, sf, it, qname)
         self.out.add('\n\n', ('glue',))
-        for (oname, osig, ospec, otext, orel, opos, oq) in self._outlines:
+        self._pending_outlines = getattr(self, '_pending_outlines', []) + self._outlines
+        self._outlines = []
+        if not getattr(self, '_in_impl_block', False):
+            self.flush_outlines()
+
+    def flush_outlines(self):
+        # R15: the outlined expressions become free functions next to the item they were taken from
+        for (oname, osig, ospec, otext, orel, opos, oq) in getattr(self, '_pending_outlines', []):
             self.out.add('#[verifier::external_body]\npub fn %s%s\n' % (oname, osig), ('glue',))
             if ospec.strip():
                 self.add_contract(oname, 'spec', ospec)
@@ -513,7 +520,7 @@ class Extractor:
             self.out.add('\n}\n\n', ('glue',))
             self.functions.append((oname + ' (outlined from %s)' % oq, orel, 'assumed'))
             self.dropped.append('%s: expression of %s outlined into %s, verified against its assumed contract only' % (orel, oq, oname))
-        self._outlines = []
+        self._pending_outlines = []
 
     def add_contract(self, qname, block, text):
         lines = text.split('\n')
@@ -664,7 +671,15 @@ class Extractor:
                 line = R.line_of(text, p0[0])
                 repl.append((p0[0], p1[1], oname + ocall, ('rw', rel, line, qname, 'R15')))
                 self.log('R15', rel, line, '%s: expression `%s ... %s` outlined into external_body fn %s (assumed contract)' % (qname, st, en, oname))
-                self._outlines.append((oname, osig, c.text or '', text[p0[0]:p1[1]], rel, p0[0], qname))
+                otext = text[p0[0]:p1[1]]
+                if len(c.args) > 5:
+                    # the receiver expression the outlined text starts from becomes the parameter:  "EXPR=>param"
+                    so, sn = c.args[5].split('=>')
+                    pp = find_norm(otext, so, 0, len(otext))
+                    if pp is None:
+                        raise LostAnchor('outline substitution %r of %s not found' % (so, qname))
+                    otext = otext[:pp[0]] + sn + otext[pp[1]:]
+                self._outlines.append((oname, osig, c.text or '', otext, rel, p0[0], qname))
         # R5 local macro expansion handled by directive `expand NAME`
         for c in children:
             if c.kind == 'expand':
@@ -850,6 +865,7 @@ class Extractor:
         return self.out.render()
 
     def emit_impl(self, node):
+        self._in_impl_block = True
         rel, header = node.args[0], node.args[1]
         sf = SourceFile.get(self.repo, rel)
         it = sf.find_impl(header)
@@ -891,6 +907,8 @@ class Extractor:
             if s.kind == 'fn' and s.name not in listed:
                 self.dropped.append('%s: method %s::%s not part of this unit' % (rel, tyname, s.name))
         self.out.add('}\n\n', ('glue',))
+        self._in_impl_block = False
+        self.flush_outlines()
 
     def emit_trait(self, node):
         rel, name = node.args[0], node.args[1]
